@@ -18,12 +18,23 @@ def run(patch, props):
     return (tests.group(1).strip() if tests else "?"), res
 
 
+ONLY = set(sys.argv[1:])          # optional: run only these properties' checks (the other recorded results are kept)
+
+
+def run_kept(patch, rec):
+    props = sorted(p for p in rec["checks"] if not ONLY or p in ONLY)
+    if not props:
+        return rec.get("tests", "?"), dict(rec["checks"])
+    tests, res = run(patch, props)
+    return tests, dict(rec["checks"], **res)
+
+
 def main():
     bad = 0
     f1 = "/verif/seeded/benign/results.json"
     r1 = json.load(open(f1))
     for name, rec in r1.items():
-        tests, res = run("/verif/seeded/benign/%s.diff" % name, sorted(rec["checks"]))
+        tests, res = run_kept("/verif/seeded/benign/%s.diff" % name, rec)
         rec["checks"], rec["tests"] = res, tests
         for p, v in res.items():
             if v != "ok" and (name, p) not in EXPECTED_ALARMS:
@@ -33,7 +44,7 @@ def main():
     f2 = "/verif/seeded/benign2/results.json"
     r2 = json.load(open(f2))
     for name, rec in sorted(r2.items()):
-        tests, res = run("/verif/seeded/benign2/%s/patch.diff" % name, sorted(rec["checks"]))
+        tests, res = run_kept("/verif/seeded/benign2/%s/patch.diff" % name, rec)
         rec["checks"], rec["tests"] = res, tests
         bad += sum(1 for v in res.values() if v != "ok")
         print(name, tests, res, flush=True)
@@ -41,7 +52,7 @@ def main():
     f3 = "/verif/seeded/benign3/results.json"
     r3 = json.load(open(f3))
     for name, rec in sorted(r3.items()):
-        tests, res = run("/verif/seeded/benign3/%s/patch.diff" % name, sorted(rec["checks"]))
+        tests, res = run_kept("/verif/seeded/benign3/%s/patch.diff" % name, rec)
         rec["checks"], rec["tests"] = res, tests
         bad += sum(1 for v in res.values() if v != "ok")
         print(name, tests, res, flush=True)
